@@ -1,5 +1,283 @@
-"""stub"""
+"""C14 — descriptor format settings are scoped and validated (DESIGN.md §4 C14)."""
+from __future__ import annotations
+
+import ast
+
+from ..core import guards
+from ..core import pyfacts as pf
+from ..core.match import txt
 from ..core.source import AnchorMissing
-PROP="C14"
+from .common import UTIL, ckey, enclosing, fn, returns, stmt_of, where
+
+PROP = "C14"
+FILES = [UTIL]
+EXPLANATION = (
+    "Typestate of the DescriptorFormat context manager decided structurally: C14.1 what __exit__ restores is only ever "
+    "written by __enter__, from a read of the class-level format that precedes the installation of the new one; C14.2 the "
+    "snapshots form a stack (append in __enter__, pop of the same attribute in __exit__) so the same object can be "
+    "re-entered; C14.3 every path of __exit__ restores, independent of the exception arguments; C14.4 who-may-write: the "
+    "only store to DescriptorFormat.config in the package is in set_config and nothing mutates it in place; C14.5 "
+    "validate-before-write: the store is dominated by the completed validation loop over both patterns, the stored object "
+    "is the validated one, the raise is reached exactly on set inequality; C14.6 validator and formatter agree on the "
+    "placeholder names.")
+NOT_DECIDED = ["equality of rendered strings after arbitrary histories (needs execution); the stack model itself is decided structurally"]
+C = "DescriptorFormat"
+
+
 def run(ctx, ss):
-    raise AnchorMissing("rules not built yet")
+    for r, f in (("C14.1", c14_1), ("C14.3", c14_3), ("C14.4", c14_4), ("C14.5", c14_5), ("C14.6", c14_6)):
+        ctx.guard(r, f, ss)
+
+
+def _is_config(e: ast.AST) -> bool:
+    t = txt(e)
+    return t in (f"{C}.config", "cls.config", "self.config", "self.__class__.config", "type(self).config")
+
+
+def _reads_config(e: ast.AST) -> bool:
+    return any(isinstance(x, ast.Attribute) and _is_config(x) and isinstance(x.ctx, ast.Load) for x in ast.walk(e))
+
+
+def c14_1(ctx, ss):
+    ex, exflow = fn(ss, UTIL, f"{C}.__exit__")
+    en, enflow = fn(ss, UTIL, f"{C}.__enter__")
+    ini, iniflow = fn(ss, UTIL, f"{C}.__init__")
+    restores = [c for c in pf.calls_in(ex.node) if txt(c.func).endswith("set_config")]
+    key = f"{UTIL}:{C} :: snapshot-at-entry"
+    if not restores:
+        ctx.violation("C14.3", ckey(ex, None, "restores"), where(ex, ex.node), "__exit__ never restores a format")
+        return
+    c = restores[0]
+    arg = next((kw.value for kw in c.keywords if kw.arg is None), None)
+    if arg is None:
+        raise AnchorMissing("__exit__: restore call is not set_config(**snapshot)")
+    arg = exflow.expand(arg)
+    # stack or slot?
+    attr, is_stack = None, False
+    if isinstance(arg, ast.Call) and isinstance(arg.func, ast.Attribute) and arg.func.attr == "pop" and isinstance(arg.func.value, ast.Attribute) \
+            and txt(arg.func.value.value) == "self" and (not arg.args or txt(arg.args[0]) == "-1"):
+        attr, is_stack = arg.func.value.attr, True
+    elif isinstance(arg, ast.Attribute) and txt(arg.value) == "self":
+        attr = arg.attr
+    else:
+        raise AnchorMissing(f"__exit__ restores `{txt(arg)}`: neither self.<slot> nor self.<stack>.pop()")
+    # writers of self.<attr> in the class
+    mf = pf.module_facts(ss, UTIL)
+    cf = mf.classes[C]
+    snaps = []      # (method, node, expr that reads the class-level format)
+    pushes = 0
+    for mname, m in cf.methods.items():
+        fl = __import__("sa.core.defuse", fromlist=["flow_of"]).flow_of(ss, m)
+        for st in pf.iter_stmts(m.node.body):
+            if isinstance(st, (ast.Assign, ast.AnnAssign)):
+                ts = st.targets if isinstance(st, ast.Assign) else [st.target]
+                if any(isinstance(t, ast.Attribute) and t.attr == attr and txt(t.value) == "self" for t in ts) and st.value is not None:
+                    v = fl.expand(st.value)
+                    if _reads_config(v):
+                        snaps.append((m, st, v, "store"))
+                    elif not (isinstance(v, (ast.List,)) and not v.elts):
+                        snaps.append((m, st, v, "store-other"))
+            elif isinstance(st, ast.Expr) and isinstance(st.value, ast.Call) and isinstance(st.value.func, ast.Attribute) \
+                    and txt(st.value.func.value) == f"self.{attr}" and st.value.func.attr in ("append", "insert", "extend"):
+                v = fl.expand(st.value.args[-1])
+                pushes += 1
+                snaps.append((m, st, v, "push"))
+    if not snaps:
+        ctx.violation("C14.1", key, where(ex, c), f"nothing ever saves the format in force into self.{attr}: __exit__ cannot restore it")
+        return
+    ok = True
+    for m, st, v, how in snaps:
+        if m.node.name != "__enter__":
+            ok = False
+            ctx.violation("C14.1", key, where(m, st),
+                          f"the format restored on exit is saved in {m.node.name} (`{txt(st)[:70]}`), not when the context is entered: a context object created "
+                          "earlier restores a stale format")
+            continue
+        if not _reads_config(v):
+            ok = False
+            ctx.violation("C14.1", key, where(m, st), f"what __enter__ saves (`{txt(v)[:60]}`) is not the class-level format in force")
+            continue
+        # the read must precede the installation of the new format
+        installs = [x for x in pf.calls_in(en.node) if txt(x.func).endswith("set_config")]
+        if not installs:
+            ok = False
+            ctx.violation("C14.1", key, where(en, en.node), "__enter__ does not install the new format")
+            continue
+        cfg = enflow.cfg
+        inst = cfg.node_of(stmt_of(en, installs[0]))
+        # statement that READS config (the def of the saved value, or the push itself)
+        read_stmt = st
+        if isinstance(st, ast.Expr) and st.value.args and isinstance(st.value.args[-1], ast.Name):
+            ds = enflow.defs_of(st.value.args[-1])
+            if len(ds) == 1 and ds[0].stmt is not None:
+                read_stmt = ds[0].stmt
+        rn = cfg.node_of(read_stmt)
+        if cfg.dominates(rn, inst) and rn != inst:
+            ctx.holds("C14.1", key, where(en, read_stmt), "the saved format is read in __enter__ before the new one is installed", 3)
+        else:
+            ok = False
+            ctx.violation("C14.1", key, where(en, read_stmt), "the format is read after (or without) installing the new one: the context would 'restore' its own format")
+        # a copy, not an alias (set_config rebinds, so an alias is safe too; record only)
+    # C14.2 stack discipline
+    k2 = f"{UTIL}:{C} :: stack"
+    if is_stack and pushes >= 1 and all(how == "push" for m, st, v, how in snaps if m.node.name == "__enter__"):
+        ctx.holds("C14.2", k2, where(ex, c), f"snapshots are pushed on self.{attr} in __enter__ and popped in __exit__ (re-entrant)", 2)
+    else:
+        ctx.violation("C14.2", k2, where(ex, c),
+                      f"the snapshot is kept in the single slot self.{attr}: entering the same context object again before leaving it overwrites the outer snapshot")
+    # a failed installation must not leave a dangling snapshot: push after the install, or install cannot fail before push
+    if is_stack:
+        for m, st, v, how in snaps:
+            if how == "push" and m.node.name == "__enter__":
+                installs = [x for x in pf.calls_in(en.node) if txt(x.func).endswith("set_config")]
+                cfg = enflow.cfg
+                if installs and cfg.dominates(cfg.node_of(stmt_of(en, installs[0])), cfg.node_of(st)):
+                    ctx.holds("C14.2", k2 + " :: after-install", where(en, st), "the snapshot is pushed only after the new format was validated and installed", 1)
+                else:
+                    ctx.violation("C14.2", k2 + " :: after-install", where(en, st),
+                                  "the snapshot is pushed before the new format is validated: a rejected pattern leaves a dangling snapshot on the stack")
+    # __enter__ installs the constructor's patterns
+    inst = [x for x in pf.calls_in(en.node) if txt(x.func).endswith("set_config")]
+    okn = bool(inst) and any(kw.arg is None and txt(kw.value) == "self.new_config" for kw in inst[0].keywords)
+    st_new = [s for s in pf.iter_stmts(ini.node.body) if isinstance(s, ast.Assign) and txt(s.targets[0]) == "self.new_config"]
+    okd = len(st_new) == 1 and isinstance(st_new[0].value, ast.Dict) and \
+        {k.value: txt(v) for k, v in zip(st_new[0].value.keys, st_new[0].value.values)} == {"decay_pattern": "decay_pattern", "sub_decay_pattern": "sub_decay_pattern"}
+    (ctx.holds if okn and okd else ctx.violation)("C14.1", f"{UTIL}:{C} :: installs-own", where(en, en.node),
+                                                  "__enter__ installs the two patterns given to the constructor" if okn and okd
+                                                  else "__enter__ does not install the constructor's two patterns in their own slots")
+
+
+def c14_3(ctx, ss):
+    ex, flow = fn(ss, UTIL, f"{C}.__exit__")
+    restores = [stmt_of(ex, c) for c in pf.calls_in(ex.node) if txt(c.func).endswith("set_config")]
+    if not restores:
+        return   # reported by c14_1
+    cfg = flow.cfg
+    k = f"{UTIL}:{C}.__exit__ :: unconditional"
+    if cfg.must_pass({cfg.node_of(s) for s in restores}) and not any(
+            c for s in restores for c in guards.path_conditions(ex.node, s) if c[0] in ("if", "exc")):
+        ctx.holds("C14.3", k, where(ex, restores[0]), "every path of __exit__ restores, not conditional on the exception arguments", len(restores))
+    else:
+        ctx.violation("C14.3", k, where(ex, restores[0]), "__exit__ restores the format only on some paths (e.g. only when no exception is in flight)")
+    rets = [r for r in returns(ex) if r.value is not None and not (isinstance(r.value, ast.Constant) and r.value.value in (None, False))]
+    if rets:
+        ctx.violation("C14.3", k + " :: swallow", where(ex, rets[0]), "__exit__ returns a true value: exceptions raised inside the block are swallowed")
+
+
+def c14_4(ctx, ss):
+    n = 0
+    writers = []
+    for m in pf.all_modules(ss):
+        mf = pf.module_facts(ss, m)
+        bodies = [(ff, ff.node) for ff in mf.funcs.values()]
+        for ff, node in bodies:
+            for x in pf.walk_no_nested(node):
+                n += 1
+                if isinstance(x, (ast.Assign, ast.AnnAssign, ast.AugAssign)):
+                    ts = x.targets if isinstance(x, ast.Assign) else [x.target]
+                    for t in ts:
+                        if isinstance(t, ast.Attribute) and t.attr == "config" and (_is_config(t) or (m == UTIL and txt(t.value) in ("cls", "self"))):
+                            writers.append((ff, x, "rebinds"))
+                        if isinstance(t, ast.Subscript) and _is_config(t.value):
+                            writers.append((ff, x, "mutates in place"))
+                elif isinstance(x, ast.Call) and isinstance(x.func, ast.Attribute) and _is_config(x.func.value) and \
+                        x.func.attr in ("update", "clear", "pop", "setdefault", "popitem", "__setitem__"):
+                    writers.append((ff, x, "mutates in place"))
+                elif isinstance(x, ast.Call) and txt(x.func) == "setattr" and x.args and txt(x.args[0]) in (C, "cls") :
+                    writers.append((ff, x, "setattr"))
+    ctx.count("ast_nodes", n)
+    ok = True
+    for ff, x, how in writers:
+        k = ckey(ff, None, f"writes-config:{how}")
+        if ff.module == UTIL and ff.qualname == f"{C}.set_config" and how == "rebinds":
+            ctx.holds("C14.4", k, where(ff, x), "set_config is the writer of the process-wide format", 1)
+        else:
+            ok = False
+            ctx.violation("C14.4", k, where(ff, x), f"{ff.qualname} {how} DescriptorFormat.config outside the validating set_config")
+    ctx.floor("C14.4", "writers of DescriptorFormat.config", len(writers), 1)
+    # embedded example (expected count of offenders on the tree is zero)
+    ex = ast.parse("def f():\n    DescriptorFormat.config['decay_pattern'] = 'x'\n").body[0].body[0]
+    fired = isinstance(ex.targets[0], ast.Subscript) and _is_config(ex.targets[0].value)
+    (ctx.holds if fired else ctx.undecided)("C14.4", "embedded-example", "-", "embedded in-place mutation example is detected" if fired else "embedded example not detected")
+
+
+def c14_5(ctx, ss):
+    ff, flow = fn(ss, UTIL, f"{C}.set_config")
+    cfg = flow.cfg
+    stores = [s for s in pf.iter_stmts(ff.node.body) if isinstance(s, ast.Assign) and any(_is_config(t) for t in s.targets)]
+    if not stores:
+        raise AnchorMissing("set_config: no store to config")
+    st = stores[-1]
+    k = f"{UTIL}:{C}.set_config"
+    loops = [n for n in pf.walk_no_nested(ff.node) if isinstance(n, ast.For)]
+    raises = [n for n in pf.walk_no_nested(ff.node) if isinstance(n, ast.Raise)]
+    vloops = [lp for lp in loops if any(any(r is x for x in ast.walk(lp)) for r in raises)]
+    if not vloops:
+        ctx.violation("C14.5", k + " :: validates", where(ff, ff.node), "set_config installs patterns without a validation loop that can raise")
+        return
+    lp = vloops[0]
+    # (a) every store comes after the completed loop
+    for i, s_ in enumerate(stores):
+        kk = k + " :: after-validation" + (f"#{i}" if len(stores) > 1 and s_ is not st else "")
+        if cfg.dominates(cfg.node_of(lp), cfg.node_of(s_)) and not enclosing(ff, s_, (ast.For, ast.While)) and not [c for c in guards.path_conditions(ff.node, s_) if c[0] == "if"]:
+            ctx.holds("C14.5", kk, where(ff, s_), "the format is stored only after the validation loop has completed", 2)
+        else:
+            ctx.violation("C14.5", kk, where(ff, s_), "the format is stored before / inside the validation loop or under a condition: an invalid pattern can be installed")
+    # (b) the loop covers both patterns and the stored object is the validated one
+    it = flow.expand(lp.iter)
+    stored = flow.expand(st.value)
+    both = False
+    if isinstance(it, ast.Call) and isinstance(it.func, ast.Attribute) and it.func.attr == "values" and isinstance(it.func.value, ast.Dict):
+        d = it.func.value
+        both = sorted(txt(v) for v in d.values) == ["decay_pattern", "sub_decay_pattern"] and txt(stored) == txt(d) \
+            and {k_.value: txt(v) for k_, v in zip(d.keys, d.values)} == {"decay_pattern": "decay_pattern", "sub_decay_pattern": "sub_decay_pattern"}
+    elif isinstance(it, (ast.Tuple, ast.List)):
+        both = sorted(txt(v) for v in it.elts) == ["decay_pattern", "sub_decay_pattern"]
+    if both:
+        ctx.holds("C14.5", k + " :: both-patterns", where(ff, lp), "both patterns are validated and the stored dictionary is the validated one", 3)
+    else:
+        ctx.violation("C14.5", k + " :: both-patterns", where(ff, lp), f"validation iterates `{txt(it)[:80]}` and stores `{txt(stored)[:80]}`: not both patterns / not the validated object")
+    # (c) raise exactly on set inequality of the placeholder set of the loop variable
+    ok = False
+    why = "no raise guarded by a set comparison"
+    for r in raises:
+        conds = [(flow.expand(e), pol) for kind, e, pol in guards.path_conditions(lp, r) if kind == "if"]
+        if len(conds) != 1:
+            why = f"raise guarded by {len(conds)} conditions"
+            continue
+        e, pol = conds[0]
+        if isinstance(e, ast.Compare) and len(e.ops) == 1 and isinstance(e.ops[0], (ast.NotEq, ast.Eq)) and (isinstance(e.ops[0], ast.NotEq) == pol):
+            sides = [e.left, e.comparators[0]]
+            lit = [s for s in sides if isinstance(s, ast.Set)]
+            comp = [s for s in sides if isinstance(s, ast.SetComp)]
+            if len(lit) == 1 and len(comp) == 1:
+                names = sorted(x.value for x in lit[0].elts if isinstance(x, ast.Constant))
+                g = comp[0].generators
+                src = txt(g[0].iter) if len(g) == 1 else ""
+                tgt = isinstance(lp.target, ast.Name) and lp.target.id
+                if names == ["daughters", "mother"] and f"Formatter().parse(__elem__(" in src and txt(comp[0].elt).endswith("[1]"):
+                    ok = True
+                else:
+                    why = f"placeholder comparison is `{txt(e)[:100]}`"
+            else:
+                why = f"comparison `{txt(e)[:100]}` is not between the pattern's placeholder set and the expected set"
+        else:
+            why = f"raise guarded by `{txt(e)[:80]}` ({'true' if pol else 'false'}): not set inequality (a superset / subset test lets extra or missing placeholders through)"
+    (ctx.holds if ok else ctx.violation)("C14.5", k + " :: rejects", where(ff, raises[0]),
+                                          "a pattern is rejected exactly when its placeholder set differs from {mother, daughters}" if ok else why)
+
+
+def c14_6(ctx, ss):
+    ff, flow = fn(ss, UTIL, f"{C}.set_config")
+    gf_, gflow = fn(ss, UTIL, f"{C}.format_descriptor")
+    sets = [n for n in pf.walk_no_nested(ff.node) if isinstance(n, ast.Set) and all(isinstance(e, ast.Constant) for e in n.elts)]
+    dicts = [n for n in pf.walk_no_nested(gf_.node) if isinstance(n, ast.Dict) and all(isinstance(k, ast.Constant) for k in n.keys)]
+    if not sets or not dicts:
+        raise AnchorMissing("placeholder set / formatter argument dict not found")
+    a = {e.value for e in sets[0].elts}
+    b = {k.value for k in dicts[0].keys}
+    k = f"{UTIL}:{C} :: placeholder-agreement"
+    if a == b == {"mother", "daughters"}:
+        ctx.holds("C14.6", k, where(ff, sets[0]), "validator and formatter agree on {mother, daughters}", 2)
+    else:
+        ctx.violation("C14.6", k, where(ff, sets[0]), f"validator expects {sorted(a)}, the formatter supplies {sorted(b)}: validated patterns can fail (KeyError) or render wrongly")
